@@ -441,6 +441,35 @@ theorem C46_chunking_independent_partial (r : Rdr) (S L : Nat) (hK : r.K S L) :
     obtain ⟨a, b', _⟩ := readByte_some r S L hK b r' h
     exact ⟨a, b'⟩
 
+/-- **C46_chunking_independent**: the whole life of a `bfe_proxy.Conn` — signature dispatch (Peek 1/5/12), v2 parse,
+    address resolution, and the bytes handed to the application afterwards — over a connection that delivers the stream in
+    ANY segments equals the chunk-free model on the concatenated stream, for every stream whose visible part does not begin
+    with the v1 signature `PROXY` (the v1 branch, `ReadString`, is the parameter `v1` and is not covered).  In
+    particular the payload that follows a v2 header in the same or in later reads reaches the application byte-exact
+    wherever the segment boundaries fall. -/
+theorem C46_chunking_independent (env : Env) (v1 : Rdr → Rd × Rdr) (segs : List Bytes) (limit : Nat) (e : EndK)
+    (hv : ((segs.flatten).take (effLimit limit)).take 5 ≠ sigV1) :
+    connSeg v1 segs limit e = connRun env segs.flatten limit e := by
+  have hK0 : ({ buf := [], segs := segs, N := effLimit limit } : Rdr).K segs.flatten.length (effLimit limit) := by
+    simp [Rdr.K]
+  have hrest : ({ buf := [], segs := segs, N := effLimit limit } : Rdr).rest = (segs.flatten).take (effLimit limit) := by
+    simp [Rdr.rest]
+  have hall : ({ buf := [], segs := segs, N := effLimit limit } : Rdr).all = segs.flatten := by simp [Rdr.all]
+  obtain ⟨h1, h2, h3⟩ := readHeaderSeg_spec env v1 _ e _ _ hK0 (by rw [hrest]; exact hv)
+  rw [hrest] at h1
+  rw [hall] at h2 h3
+  unfold connSeg connRun
+  have ha : atEOFOf segs.flatten limit e = (decide (segs.flatten.length ≥ effLimit limit) || e == .eof) := rfl
+  rw [ha, ← h1]
+  simp only []
+  generalize readHeaderSeg v1 { buf := [], segs := segs, N := effLimit limit } e = p at h2 h3 ⊢
+  obtain ⟨rd, r⟩ := p
+  cases rd with
+  | noProxy => simp [connOf, h2 rfl]
+  | err => rfl
+  | sock n => simp [connOf, h3 n rfl]
+  | hdr f s d sp dp n => simp only [connOf]; rw [h3 n rfl]; rfl
+
 /-- **C46_chunking_independent (v2 parser)**: let the connection deliver the stream in ANY segments `segs` (each
     `conn.Read` returns bytes of at most one segment), read through bfe_bufio's 4096-byte reader and the header
     limiter.  Once `Peek(12)` has matched the v2 signature, `parseVersion2` over that reader (`parseV2Seg`: ReadByte ×4,
